@@ -17,7 +17,9 @@ from harness.common import guard, vint
 FUNCTIONS = ["ckl.interpreter.Interpreter.interpret", "ckl.nodes.NodeRequire.evaluate",
              "ckl.functions.Environment.pushModuleStack/popModuleStack/getModules/put/set/get",
              "ckl.nodes.NodeDef/NodeAssign/NodeFor/NodeBlock"]
-OUTSIDE = ["quick tier: the last command of a 3-command history is one of 14 observer commands", "histories longer than the bound (the unit step argues for the module stack only)",
+OUTSIDE = ["quick tier: the last command of a 3-command history is one of 14 observer commands",
+           "thorough tier: 3-command histories over the whole alphabet; 4-command histories are first command (any), two of 16 "
+           "state-changing commands, one of 14 observers", "histories longer than the bound (the unit step argues for the module stack only)",
            "more than two interpreter instances", "random long histories"]
 REACH = {"history", "step"}
 
@@ -41,6 +43,15 @@ OBSERVERS = ["a", "f(2)", "[b, c]", "good->get()", "qq", "length(load_log)", "re
              "K->get()", "G->low"]
 
 
+# commands that change the session (thorough tier: the middle commands of a 4-command history)
+MUTATORS = ["def a = 1", "def a = 5", "a = a + 1", "def f(x) x + a", "def b = 5; undefined_zz; def c = 6",
+            "require good; good->inc()", "require broken", "require cyc_a", "require needs_broken",
+            "for i in [1, 2, 3] do def qq = i; if i == 2 then error 'stop' end", "require other; other->via_good()",
+            "def class K do def v = 10; def get(self) self->v end; 'k'",
+            "def class K do def v = 20; def w = undefined_zz; def get(self) 0 end; 'k2'",
+            "def class G do def low = 1; def high = error 'boom' end", "def )", "require badsyntax"]
+
+
 def bounds(tier):
     return {"history_length": 3 if tier == "quick" else 4, "two_instance_history_length": 2 if tier == "quick" else 3,
             "alphabet": len(CMDS)}
@@ -52,6 +63,8 @@ def cells(tier, seed):
     for first in range(len(CMDS)):
         out.append({"k": "history", "first": first, "n": b["history_length"], "instances": 1, "tier": tier})
         out.append({"k": "history", "first": first, "n": b["two_instance_history_length"], "instances": 2, "tier": tier})
+        if tier != "quick":
+            out.append({"k": "history", "first": first, "n": 3, "instances": 1, "tier": tier})
     for m in ["good", "missing_mod", "broken", "badsyntax", "cyc_a", "selfreq", "needs_broken", "other", "third"]:
         out.append({"k": "step", "module": m})
     return out
@@ -190,8 +203,10 @@ def run(ctx, cell):
     for step in range(n):
         if step == 0:
             ci = cell["first"]
-        elif cell.get("tier") == "quick" and step == n - 1 and n >= 3:
+        elif step == n - 1 and n >= 3 and (cell.get("tier") == "quick" or n >= 4 or ni == 2):
             ci = CMDS.index(OBSERVERS[ctx.choice("c%d" % step, len(OBSERVERS))])
+        elif n >= 4:
+            ci = CMDS.index(MUTATORS[ctx.choice("c%d" % step, len(MUTATORS))])
         else:
             ci = ctx.choice("c%d" % step, len(CMDS))
         inst = 0 if (ni == 1 or step == 0) else ctx.choice("i%d" % step, ni)
